@@ -7,6 +7,18 @@ VERIF = Path(__file__).resolve().parent.parent
 HOOK_COMMITS: list[str] = []
 
 CLAIMED = {
+    "C19": dict(
+        category="model_checking",
+        text=("SchemaAlgebra.tla specifies the effect of an extension (ApplyExt: entries appended in document order, nothing else changes) and the "
+              "order-insensitive reading of a schema (Unordered). For seeded (base schema, extension document) pairs - extensions adding fields, interfaces, "
+              "union members, enum values, input fields, types, directives and operation types with shuffled definition order - TLC checks that the projection "
+              "of extend_schema(build(A), B) equals that of build(A+B), that the original object's projection is unchanged, and (as drift) that both equal "
+              "ApplyExt(A, B); that sorting changes order only and is idempotent. Python checks equal prints, the identity law for empty extensions, "
+              "find_schema_changes(s, s) = [] and, for single-edit mutants, that every reported change names an element whose projection differs."),
+        design_ref="DESIGN.md 5/C19",
+        note="Sortedness itself (natural order) is not decided by TLC (no string order in TLC); witness rule for reported changes is evaluated in the harness.",
+        technique="TLC evaluation of recorded extend/sort results against SchemaAlgebra.tla (ApplyExt, Unordered) + metamorphic laws on the real utilities",
+    ),
     "C20": dict(
         category="model_checking",
         text=("SchemaValid.tla transcribes the specification's type-system rules as one named predicate per rule (root types, directive definitions, reserved "
